@@ -23,8 +23,10 @@ from . import runner23
 from .rng import mix
 
 VERIF = os.path.dirname(os.path.dirname(os.path.abspath(__file__)))
-OUT = os.path.join(VERIF, "out")
-EVIDENCE = os.path.join(VERIF, "evidence")
+# (the two overrides exist for the self-tests only, so that runs against scratch copies never
+# overwrite the evidence or replay files of the real tree)
+OUT = os.environ.get("VERIF_OUT_DIR") or os.path.join(VERIF, "out")
+EVIDENCE = os.environ.get("VERIF_EVIDENCE_DIR") or os.path.join(VERIF, "evidence")
 KNOWN_FILE = os.path.join(VERIF, "known_findings.txt")
 TRACE_FORMAT = "cvsssim-trace-1"
 
